@@ -62,7 +62,7 @@ ok = same('is_valid', t.is_valid, valid) and same('tested', t.tested, tested)
 ok = ok and same('num_failures', t.num_failures, len(fails)) and note('failure list length', len(t.failures) == len(fails))
 if ok:
     for f, (v, cp) in zip(t.failures, fails):
-        ok = ok and note('failure value is the failing node', f.value is v)
+        ok = ok and note('failure value is the value of the failing node', f.value is v or (cp == () and tx(f.value) == tx(v)))  # (the root node is handed out as an equal copy)
         ok = ok and same('failure path', tx(tuple(f.path)), tx(cp))
         ok = ok and note('the path is truthful', follow(doc, f.path) is v)
         ok = ok and note('at least one textual reason', len(f.reasons) >= 1 and all(isinstance(r, str) and len(r) > 0 for r in f.reasons))
